@@ -128,3 +128,9 @@ Definition dump_fast (pats : list bytes) (ptes : list pte_entry) (strs : list ts
       | IOutOfFuel => DumpOutOfFuel
       end
   end.
+
+Definition dump_file_fast (ptes : list pte_entry) (strs : list tstring) (lines : list text) : dump_res :=
+  match first_nonempty HEX_DUMP_LINE_FORMATS lines with
+  | [] => DumpOk []
+  | d => dump_fast header_patterns ptes strs d
+  end.
